@@ -6,7 +6,15 @@ import (
 	"encoding/json"
 	"os"
 	"sync"
+	"sync/atomic"
+	"time"
 )
+
+// LastEmit is the unix-nano time of the last emitted event (watchdog: a driver that emits nothing for
+// a long time is hung; that is a machinery problem, never a verdict).
+var LastEmit atomic.Int64
+
+func init() { LastEmit.Store(time.Now().UnixNano()) }
 
 type T struct {
 	mu sync.Mutex
@@ -29,6 +37,7 @@ func (t *T) Emit(ev map[string]any) int {
 	if err != nil {
 		panic(err)
 	}
+	LastEmit.Store(time.Now().UnixNano())
 	t.mu.Lock()
 	defer t.mu.Unlock()
 	t.w.Write(b)
